@@ -247,12 +247,22 @@ _loop = None
 mimetypes.init()
 
 
-def get_app(app, iface, mode, directory, ctx, token):
-    key = (app, iface, mode, directory, ctx, token)
+def _custom_404(iface):
+    mod = importlib.import_module("baize.%s" % iface)
+    return mod.PlainTextResponse("custom-not-found", 404, {"x-custom-404": "1"})
+
+
+def get_app(app, iface, mode, directory, ctx, token, opts=""):
+    key = (app, iface, mode, directory, ctx, token, opts)
     if key in _apps:
         return _apps[key]
     mod = importlib.import_module("baize.%s.staticfiles" % iface)
-    cls = getattr(mod, app)
+    base_cls = getattr(mod, app)
+    if opts == "h404":
+        def cls(*a, **kw):
+            return base_cls(*a, handle_404=_custom_404(iface), **kw)
+    else:
+        cls = base_cls
     try:
         if mode == "pkg":
             pkgdir = posixpath.dirname(ctx)
@@ -334,13 +344,21 @@ def root_of(line):
     request path of the line is the path BELOW it, as Subpaths hands it over.  The model does not read it: the
     files served depend on the path alone, and the redirect is "the same URL + '/'"."""
     a = line.split(" ")
-    return dec_text(a[8]) if len(a) > 8 else ""
+    return dec_text(a[8]) if len(a) > 8 and a[8] != "-" else ""
+
+
+def opts_of(line):
+    """optional 10th token: constructor options.  `h404`: the app is built with handle_404=<an application that
+    answers 404 'custom'>; "nothing is served" then shows as that answer, canonicalised to `http 404` - the option
+    must not change WHICH requests are served, redirected or not found."""
+    a = line.split(" ")
+    return a[9] if len(a) > 9 else ""
 
 
 def _impl(line):
     app, iface, mode, directory, ctx, path, token = parse_line(line)
     materialise(token)
-    inst = get_app(app, iface, mode, directory, ctx, token)
+    inst = get_app(app, iface, mode, directory, ctx, token, opts_of(line))
     if isinstance(inst, Exception):
         return "ctor %s" % type(inst).__name__
     _rec["log"] = []
@@ -365,6 +383,8 @@ def _impl(line):
                 res = "%d replaced" % status
             else:
                 res = "%d raw-location=%s" % (status, enc(loc or ""))
+        elif status == 404 and body == b"custom-not-found" and opts_of(line) == "h404":
+            res = "http 404"        # the application's own not-found answer
         else:
             res = "%d %s" % (status, enc(body))
     except Exception as exc:  # noqa
@@ -707,6 +727,12 @@ def cases(rng, tier):
         for path in paths_upto(names, 3):
             for a, i in VARIANTS:
                 yield mk(a, i, "abs", path, T_STD) + " " + enc(root)
+    # 2c. the apps built with the handle_404 option
+    for path in paths_upto(ALPHABET + ["x", "dir.html", "sub"], 2):
+        for a, i in VARIANTS:
+            for token in (T_STD, T_HTMLDIR):
+                yield mk(a, i, "abs", path, token) + " - h404"
+    # 3. directory given relative / package-relative / in odd spellings
     base = base_of(T_STD)
     spellings = [("rel", None), ("pkg", None), ("rel", "./root/"), ("rel", "../outer/./root"), ("rel", "rootX/../root"),
                  ("pkg", "./root"), ("pkg", "rootX/../root/"), ("abs", base + "/outer//root/"),
